@@ -108,7 +108,9 @@ theorem inv_step1 (retry : Cl → Option (Cl × Res)) (nx : Nat) (c : Cl) (e : E
           · split
             · exact ⟨synced_syncRec _, (inv_mgrCreate _ _ e hw).2⟩
             · exact inv_ownMessage _ e hw
-          · exact inv_processCommit _ e _ _ hw
+          · split
+            · exact hw
+            · exact inv_processCommit _ e _ _ ⟨hw.1, hw.2⟩
       · -- leave
         split
         · exact hw
